@@ -426,6 +426,37 @@ def _ab_cases(ctx):
     return cases
 
 
+def _ab_nonfinite(ctx):
+    """one band of an object is not measured (NaN) or saturated (inf): "one AB offset PER BAND" - the other four bands of that
+    object get their own offset as always (statement-level only)"""
+    rng = ctx.rng
+    for _ in range(ctx.n(30, 600)):
+        nrow = rng.randrange(1, 5)
+        rows = [[10 ** rng.uniform(-2, 4) for _ in range(5)] for _ in range(nrow)]
+        r, j = rng.randrange(nrow), rng.randrange(5)
+        rows[r][j] = rng.choice([float('nan'), float('inf'), float('-inf')])
+        mode = rng.choice(['flux', 'ivar'])
+        impl, untouched = _ab_call(rows, False, mode == 'ivar')
+        c = {'stream': 'ab-nonfinite', 'mode': mode, 'rows': [[core.f2b(x) for x in rr] for rr in rows]}
+        ctx.seen(c)
+        ctx.count('ab:nonfinite:' + mode)
+        if 'err' in impl:
+            ctx.violate('ab:nonfinite:raises-' + impl['err'], 'sdssflux2ab raised on a row with a non-finite band', c)
+            continue
+        out = [[core.b2f(b) for b in rr] for rr in impl['ok']]
+        for ri in range(nrow):
+            for k in range(5):
+                x, o = rows[ri][k], out[ri][k]
+                if not math.isfinite(x):
+                    continue
+                fac = 10 ** (-0.4 * DOC_OFFSETS[k])
+                want = x * fac if mode == 'flux' else x / fac ** 2
+                if not (math.isfinite(o) and abs(o - want) <= 1e-9 * abs(want)):
+                    ctx.violate('ab:nonfinite-band-spoils-others', 'band %s of a row whose band %s is %r: %r -> %r, own offset gives %r' % (
+                        BANDS[k], BANDS[j], rows[r][j], x, o, want), c)
+                    break
+
+
 def _ab_run(ctx, cases, use_model=True):
     def flags(mode):
         return mode.startswith('mag'), mode.endswith('ivar')
@@ -1003,6 +1034,7 @@ def run(ctx):
     _wave_run(ctx, _wave_cases(ctx))
     _rat_run(ctx)
     _ab_run(ctx, _ab_cases(ctx))
+    _ab_nonfinite(ctx)
     _interp_run(ctx, _interp_cases(ctx))
     _resp_run(ctx, _resp_cases(ctx))
     _filter_run(ctx, _filter_cases(ctx))
